@@ -63,6 +63,9 @@ def regions(t, u, v):
                                  surface=[u, v, u], s1=(u, 0, a), s2=(v, 0, b), sizes=[a, b]),
         "rectangle": dict(segments=[([t, 0], (t, 0, a)), ([a, t], (t, 0, b)), ([a - t, b], (t, 0, a)), ([0, b - t], (t, 0, b))],
                           surface=[u, v], s1=(u, 0, a), s2=(v, 0, b), sizes=[a, b]),
+        # a circle lifted to the plane z = h and a tilted one (Stokes with fields that have FEWER components than the curve has coordinates)
+        "circle_lifted": dict(curve=[R * sp.cos(t), R * sp.sin(t), sp.Symbol("h", positive=True)], climits=(t, 0, 2 * sp.pi),
+                              surface=[u * sp.cos(v), u * sp.sin(v), sp.Symbol("h", positive=True)], s1=(u, 0, R), s2=(v, 0, 2 * sp.pi), sizes=[R]),
     }
 
 
@@ -134,6 +137,8 @@ def work(item):
                 comps, coeffs = generic_field(C, deg, 2 if planar else 3, planar=planar and variant != "theoremz")
                 if variant == "curlzfree":
                     comps = curlz_free_field(C, deg)
+                if variant == "twocomp":      # two components that depend on x, y AND z; the missing third component is zero
+                    comps, coeffs = generic_field(C, deg, 2, planar=False)
                 field = VectorField.from_vector(Vector(comps, C))
                 f_curve = AN.circulation_along_curve if theorem == "stokes" else AN.flux_across_curve
                 f_surf = AN.circulation_along_surface_boundary if theorem == "stokes" else AN.flux_across_surface_boundary
@@ -149,7 +154,7 @@ def work(item):
                             traj = [sp.sympify(c).subs(p, lo + hi - p) for c in traj]
                         tot += f_curve(field, traj, (p, lo, hi))
                     return tot
-                if variant in ("theorem", "theoremz", "curlzfree"):
+                if variant in ("theorem", "theoremz", "curlzfree", "twocomp"):
                     lhs = curve_value()
                     rhs = f_surf(field, reg["surface"], reg["s1"], reg["s2"])
                     return lhs, rhs, [t, u, v]
@@ -243,11 +248,13 @@ theorem, region, deg, variant = {item!r}
 C = CoordinateSystem(CoordinateSystem.System.CARTESIAN)
 t, u, v = sp.symbols("t u v", real=True)
 random.seed(11)
-sizes = {{sp.Symbol("R", positive=True): 2, sp.Symbol("a", positive=True): 3, sp.Symbol("b", positive=True): sp.Rational(3, 2), sp.Symbol("c", positive=True): 2}}
+sizes = {{sp.Symbol("R", positive=True): 2, sp.Symbol("a", positive=True): 3, sp.Symbol("b", positive=True): sp.Rational(3, 2), sp.Symbol("c", positive=True): 2, sp.Symbol("h", positive=True): sp.Rational(5, 2)}}
 planar = theorem == "green"
 comps, coeffs = c13.generic_field(C, deg, 2 if planar else 3, planar=planar and variant != "theoremz")
 if variant == "curlzfree":
     comps = c13.curlz_free_field(C, deg); coeffs = sorted({{s for c in comps for s in sp.sympify(c).free_symbols if not isinstance(s, BaseScalar)}}, key=str)
+if variant == "twocomp":
+    comps, coeffs = c13.generic_field(C, deg, 2, planar=False)
 vals = {{a: random.randint(-4, 4) or 1 for a in coeffs}}
 comps = [sp.sympify(c).subs(vals) for c in comps]
 field = VectorField.from_vector(Vector(comps, C))
@@ -270,7 +277,7 @@ try:
                 if reverse: traj = [c.subs(p, lo + hi - p) for c in traj]
                 tot += fc(field, traj, (p, lo, hi))
             return num(tot)
-        if variant in ("theorem", "theoremz", "curlzfree"):
+        if variant in ("theorem", "theoremz", "curlzfree", "twocomp"):
             s1 = tuple(sp.sympify(x).subs(sizes) for x in reg["s1"]); s2 = tuple(sp.sympify(x).subs(sizes) for x in reg["s2"])
             l = curve(); r = num(fs(field, [sp.sympify(c).subs(sizes) for c in reg["surface"]], s1, s2))
         elif variant == "speed": l = curve(); r = curve(scale=sp.Rational(5, 2))
@@ -329,6 +336,9 @@ def run(ctx):
         items.append(("stokes", "disc_xy", deg, "theorem", timeout))
         items.append(("stokes", "tilted_rectangle", deg, "theorem", timeout))
         items.append(("stokes", "tilted_rectangle", deg, "curlzfree", timeout))
+        items.append(("stokes", "circle_lifted", deg, "twocomp", timeout))
+        items.append(("stokes", "circle_lifted", deg, "theorem", timeout))
+        items.append(("stokes", "tilted_rectangle", deg, "twocomp", timeout))
         items.append(("green", "disc_xy", deg, "theorem", timeout))
         items.append(("green", "circle_swapped", deg, "theorem", timeout))
         items.append(("green", "circle", deg, "theoremz", timeout))
